@@ -184,6 +184,21 @@ impl Actor {
     ) -> Result<(), PutError> {
         self.core.check_concurrency_errors(&request)?;
 
+        if let PutRequestSpecific::PutMutable(args) = &request {
+            if let Some(PutRequestSpecific::PutMutable(inflight)) = self
+                .core
+                .put_queries
+                .get(&args.target)
+                .map(|existing| &existing.request)
+            {
+                if inflight.sig == args.sig {
+                    // The inflight query is sufficient. Sending the same item again makes
+                    // the nodes that already stored it fail its `cas` condition.
+                    return Ok(());
+                }
+            }
+        }
+
         let mut query = PutQuery::new(request.clone(), extra_nodes);
 
         let target = request.target();
